@@ -652,7 +652,8 @@ pub fn run(ctx: &mut Ctx) {
     // Safety net: a panic outside the guarded library calls (a harness fault, or a library panic in
     // a place no guard covers) must not take the shard down silently.
     let env = MsgEnv::new();
-    let fams: [(&str, &dyn Fn(&mut Ctx)); 5] = [
+    let fams: [(&str, &dyn Fn(&mut Ctx)); 6] = [
+        ("F", &|c: &mut Ctx| family_files(c, &env)),
         ("S", &family_small),
         ("D", &family_dearmor),
         ("E", &family_streams),
@@ -1100,10 +1101,17 @@ fn family_small(ctx: &mut Ctx) {
         ];
         c
     };
-    let digest_of = |typ: SignatureType, data: &[u8], splits: &[usize]| -> Result<Vec<u8>, String> {
+    // `empties`: additionally pass a zero-length buffer in front of, between and behind the pieces
+    let digest_of_e = |typ: SignatureType, data: &[u8], splits: &[usize], empties: bool| -> Result<Vec<u8>, String> {
         let mut h = mk(typ).into_hasher().map_err(|e| e.to_string())?;
+        if empties {
+            h.write(&[]).map_err(|e| e.to_string())?;
+        }
         for c in chunks_by_splits(data, splits) {
             h.write_all(c).map_err(|e| e.to_string())?;
+            if empties {
+                h.write(&[]).map_err(|e| e.to_string())?;
+            }
         }
         h.sign(&signer, &Password::empty()).map_err(|e| e.to_string())?;
         let seen = signer.take();
@@ -1112,6 +1120,7 @@ fn family_small(ctx: &mut Ctx) {
         }
         Ok(seen[0].digest.clone())
     };
+    let digest_of = |typ: SignatureType, data: &[u8], splits: &[usize]| digest_of_e(typ, data, splits, false);
     for i in 0..ctx.qt(120u64, 1200u64) {
         if !ctx.mine() {
             continue;
@@ -1152,6 +1161,20 @@ fn family_small(ctx: &mut Ctx) {
                         replay(),
                     ),
                     Some(Err(e)) => ctx.violation("C09/signature-hasher/sched/ok-became-err", format!("chunked hashing failed: {e}"), replay()),
+                    None => {}
+                }
+                // the same chunking with zero-length writes interleaved
+                let replay_e = || json!({"family": "S5", "type": tname, "data": hexs(&data), "splits": splits, "empty_writes": true});
+                let got = guarded(ctx, "C09/signature-hasher/sched", replay_e, || digest_of_e(typ, &data, splits, true));
+                ctx.eval();
+                match got {
+                    Some(Ok(d)) if d == d0 => {}
+                    Some(Ok(_)) => ctx.violation(
+                        format!("C09/signature-hasher/sched/digest-differs/{tname}/empty-writes"),
+                        format!("SignatureHasher ({tname}) digest of {:?} changes when zero-length writes are interleaved with the chunking {:?}", String::from_utf8_lossy(&data), splits),
+                        replay_e(),
+                    ),
+                    Some(Err(e)) => ctx.violation("C09/signature-hasher/sched/ok-became-err", format!("chunked hashing with empty writes failed: {e}"), replay_e()),
                     None => {}
                 }
             }
@@ -1866,6 +1889,8 @@ enum Target<'s> {
     Vec,
     Writer(&'s mut Sink),
     Armored(&'s mut Sink, bool),
+    /// `to_file` / `to_armored_file` (the library opens the path itself)
+    File(&'s std::path::Path, bool),
 }
 
 fn sub_cfg(key: &SignedSecretKey) -> SubpacketConfig {
@@ -1901,6 +1926,8 @@ fn emit<R: Read, E: pgp::composed::Encryption>(b: MessageBuilder<'_, R, E>, rng:
         Target::Vec => b.to_vec(rng).map(Some),
         Target::Writer(s) => b.to_writer(rng, s).map(|_| None),
         Target::Armored(s, crc) => b.to_armored_writer(rng, ArmorOptions { headers: None, include_checksum: crc }, s).map(|_| None),
+        Target::File(p, false) => b.to_file(rng, p).map(|_| None),
+        Target::File(p, true) => b.to_armored_file(rng, p, ArmorOptions { headers: None, include_checksum: true }).map(|_| None),
     }
 }
 
@@ -2097,6 +2124,79 @@ fn sink_scheds(thorough: bool, seed: u64) -> Vec<Sched> {
         v.extend([Sched::Fixed(2), Sched::Fixed(7), Sched::Fixed(63), Sched::Fixed(65), Sched::Fixed(511), Sched::Fixed(513), Sched::Fixed(8191), Sched::Fixed(8193), Sched::Random(seed ^ 5, 9000)]);
     }
     v
+}
+
+/// Family F: the file sinks of the builder. `to_file` / `to_armored_file` onto a healthy file must leave
+/// exactly the octets `to_vec` / the armored writer produce; onto a device that refuses every write
+/// (`/dev/full`: ENOSPC) they must return Err for every configuration and size - nothing was stored, so an
+/// Ok would be a swallowed sink fault.
+fn family_files(ctx: &mut Ctx, env: &MsgEnv) {
+    let cfgs: Vec<Cfg> = configs();
+    let full = std::path::Path::new("/dev/full");
+    let have_full = std::fs::OpenOptions::new().write(true).open(full).is_ok();
+    if !have_full {
+        ctx.tally("F.dev-full-missing", 1);
+    }
+    let dir = std::path::PathBuf::from(format!("/verif/target/tmp/c09-files-{}", std::process::id()));
+    let _ = std::fs::create_dir_all(&dir);
+    let sizes: Vec<usize> = if ctx.quick() { vec![0, 1, 100, 4000, 8000, 8192, 9000, 70000] } else { vec![0, 1, 2, 100, 511, 512, 513, 4000, 8000, 8170, 8191, 8192, 8193, 9000, 16384, 70000, 300000] };
+    for (ci, cfg) in cfgs.iter().enumerate() {
+        for &n in &sizes {
+            if !ctx.mine() {
+                continue;
+            }
+            let mut rng = ctx.rng("F", (ci * 1_000_000 + n) as u64);
+            let data = Arc::new(payload(&mut rng, n, cfg.text));
+            describe_case(&format!("F cfg {} size {n}", cfg.name));
+            let base = json!({"family": "F", "cfg": cfg.name, "size": n, "data": hexs(&data)});
+            for armored in [false, true] {
+                let kind = if armored { "to_armored_file" } else { "to_file" };
+                // reference: the same build into memory
+                let r0 = guarded(ctx, "C09/builder-file/r0", || base.clone(), || {
+                    let mut sink = Sink::new(&Sched::All);
+                    let r = build(env, cfg, Src::new(&data, &Sched::All), if armored { Target::Armored(&mut sink, true) } else { Target::Writer(&mut sink) });
+                    let bytes = sink.out.borrow().clone();
+                    (r.map(|_| ()).map_err(|e| e.to_string()), bytes)
+                });
+                ctx.eval();
+                let Some((Ok(()), want)) = r0 else { continue };
+                // healthy file
+                let path = dir.join(format!("{ci}-{n}-{armored}.out"));
+                let got = guarded(ctx, "C09/builder-file/healthy", || base.clone(), || build(env, cfg, Src::new(&data, &Sched::Fixed(700)), Target::File(&path, armored)).map(|_| ()).map_err(|e| e.to_string()));
+                ctx.eval();
+                ctx.cover(&("F", cfg.name, n, armored));
+                match got {
+                    Some(Ok(())) => {
+                        let on_disk = std::fs::read(&path).unwrap_or_default();
+                        if on_disk != want {
+                            ctx.violation(
+                                format!("C09/builder-file/{kind}/file-differs"),
+                                format!("{kind} cfg {} over {n} payload bytes left {} octets in the file, the writer form has {} (first difference at {})", cfg.name, on_disk.len(), want.len(), first_diff(&on_disk, &want)),
+                                base.clone(),
+                            );
+                        }
+                    }
+                    Some(Err(e)) => ctx.violation(format!("C09/builder-file/{kind}/ok-became-err"), format!("{kind} cfg {} size {n} onto a healthy file failed: {e}", cfg.name), base.clone()),
+                    None => {}
+                }
+                let _ = std::fs::remove_file(&path);
+                // a device that refuses every write
+                if have_full && !want.is_empty() {
+                    let got = guarded(ctx, "C09/builder-file/full", || base.clone(), || build(env, cfg, Src::new(&data, &Sched::Fixed(700)), Target::File(full, armored)).map(|_| ()).map_err(|e| e.to_string()));
+                    ctx.eval();
+                    ctx.seen("F.fault", format!("{kind}-enospc"));
+                    if let Some(Ok(())) = got {
+                        ctx.violation(
+                            format!("C09/builder-file/{kind}/fault-swallowed"),
+                            format!("{kind} cfg {} over {n} payload bytes ({} octets of output) onto /dev/full (every write fails with ENOSPC) returned Ok", cfg.name, want.len()),
+                            base.clone(),
+                        );
+                    }
+                }
+            }
+        }
+    }
+    let _ = std::fs::remove_dir_all(&dir);
 }
 
 fn family_messages(ctx: &mut Ctx, env: &MsgEnv) {
